@@ -7,7 +7,7 @@
 // implant-side UnmarshalStream, and every step is compared with the Gallina model (Model/Tasks.v).
 //
 // Oracle (the property evaluated on the implementation): the decoded description equals the
-// encoded one modulo the normalisation of empty filters (nil or Filter.Empty() filter behind a
+// encoded one modulo the normalisation of empty filters (nil or attribute-less filter behind a
 // pointer -> nil; empty embedded filter value -> zero value), and decoding consumed exactly the
 // encoded bytes (trailing bytes are put after every encoding and must be left untouched).
 package main
@@ -296,9 +296,16 @@ func (f *fdesc) real() *filter.Filter {
 	return r
 }
 
+// isEmpty is the harness' OWN statement of "empty filter" (not the library's Empty(), which is
+// part of what is being checked): no selecting attribute is set.  Fallback is not a selecting
+// attribute (filter.Clear: "clears the Filter settings, except for Fallback").
+func isEmpty(f *filter.Filter) bool {
+	return f == nil || (f.PID == 0 && uint8(f.Session) == 0 && uint8(f.Elevated) == 0 && len(f.Exclude) == 0 && len(f.Include) == 0)
+}
+
 // normPtr is the documented normalisation of a filter behind a pointer: nil and empty are both nil.
 func normPtr(f *filter.Filter) *filter.Filter {
-	if f.Empty() {
+	if isEmpty(f) {
 		return nil
 	}
 	return f
@@ -455,12 +462,12 @@ func targetFrom(d *desc, norm bool) *target {
 		t.fp = np(d.filt.real())
 	case kFilterVal:
 		t.fv = *d.fval.real()
-		if norm && t.fv.Empty() {
+		if norm && isEmpty(&t.fv) {
 			t.fv = filter.Filter{}
 		}
 	case kSentinel:
 		t.s = *d.sentinel()
-		if norm && t.s.Filter.Empty() {
+		if norm && isEmpty(&t.s.Filter) {
 			t.s.Filter = filter.Filter{}
 		}
 	case kScript:
@@ -785,6 +792,9 @@ func roundOpt(rng *vh.Rand, d *desc, class string, model bool) {
 		}
 	}
 	dd["encoded_len"], dd["trailing"] = len(enc), len(rest)
+	if f := d.filt.real(); f.Empty() != isEmpty(f) {
+		out.Fail("Filter.Empty() disagrees with 'no selecting attribute is set'", "filter/empty-predicate", dd)
+	}
 	input := append(append([]byte(nil), enc...), rest...)
 	want := targetFrom(d, true)
 	r1 := decode(&target{kind: d.kind}, input, nil)
@@ -1290,7 +1300,10 @@ func main() {
 
 	// ---- corpus: the known finding (one representative per run) and its neighbours
 	one := spdesc{t: 0, path: mkLit([]byte("a"))}
-	roundOpt(rng, &desc{kind: kSentinel, fval: fdesc{pid: 7}, paths: []spdesc{one}, rep: 65535}, "sentinel-65535-paths", thorough)
+	roundOpt(rng, &desc{kind: kSentinel, fval: fdesc{pid: 7}, paths: []spdesc{one}, rep: 65535}, "sentinel-65535-paths", false)
+	if thorough {
+		round(rng, &desc{kind: kSentinel, fval: fdesc{pid: 7}, paths: []spdesc{one}, rep: 20000}, "sentinel-20000-paths")
+	}
 	round(rng, &desc{kind: kSentinel, fval: fdesc{pid: 7}, paths: []spdesc{one}, rep: 3000}, "sentinel-3000-paths")
 	round(rng, &desc{kind: kSentinel, fval: fdesc{pid: 7}, paths: []spdesc{one}, rep: 65536}, "sentinel-65536-paths")
 	if thorough {
